@@ -613,6 +613,16 @@ func (c *Ctx) callEnv(s *State, fc *FuncContract, callee *ssa.Function, cc *ssa.
 	if env.pkg == nil && c.fn != nil && c.fn.Pkg != nil {
 		env.pkg = c.fn.Pkg.Pkg
 	}
+	if callee != nil {
+		for o, n := range c.eng.localAlias[qualFnName(callee)] {
+			if v, ok := env.vars[n]; ok {
+				if _, has := env.vars[o]; !has {
+					env.vars[o] = v
+					c.eng.aliasUsed[c.key] = true
+				}
+			}
+		}
+	}
 	return env
 }
 
@@ -1151,6 +1161,15 @@ func (c *Ctx) bindFreeVars(env *Env, callee *ssa.Function, binds []Value) {
 				env.addrVars = map[string]tv{}
 			}
 			env.addrVars[fv.Name()] = tv{binds[i], fv.Type()}
+		}
+	}
+	// captured variables renamed since the baseline are also reachable under their old names
+	for o, n := range c.eng.localAlias[qualFnName(callee)] {
+		if v, ok := env.addrVars[n]; ok {
+			if _, has := env.addrVars[o]; !has {
+				env.addrVars[o] = v
+				c.eng.aliasUsed[c.key] = true
+			}
 		}
 	}
 }
